@@ -35,6 +35,20 @@ macro_rules! table {
                 _ => None,
             }
         }
+        /// framed typed reader `msgs::read_message::<T>` on any reader (the stream stays with the caller)
+        pub fn typed_read_message_from<R: vls_protocol::serde_bolt::io::Read>(
+            name: &str,
+            r: &mut R,
+        ) -> Option<Result<Box<dyn SerBolt>, String>> {
+            match name {
+                $(stringify!($n) => Some(
+                    msgs::read_message::<_, msgs::$n>(r)
+                        .map(|m| Box::new(m) as Box<dyn SerBolt>)
+                        .map_err(|e| format!("{:?}", e)),
+                ),)*
+                _ => None,
+            }
+        }
         /// framed typed reader `msgs::read_message::<T>`
         pub fn typed_read_message(name: &str, frame: Vec<u8>) -> Option<Result<Box<dyn SerBolt>, String>> {
             match name {
